@@ -39,14 +39,20 @@ def obligations(tier):
         CH("conjunction_is_intersection", H, "conjunction", t, functions=FF[:3], stubs=[FMT], bounds="two symbolic filters over two objects, unbounded ints"),
         CH("timestamp_strings_as_instants", H, "timestamps", t, mode="E1s", functions=FF[:2] + FM[:1],
            bounds="5 instants x every spelling of the filter string x 6 operators x (direct, MemorySource.query)"),
+        CH("contains_on_every_property_kind", H, "contains_kinds", t, mode="E1s", functions=FF[:2] + FM[:1],
+           bounds="26 (document, path, value) cases: strings (substring), dictionaries (key; value for a dict filter value), lists (any element), dotted paths through "
+                  "dictionaries and lists x dict / library object / MemorySource / FileSystemStore x with a contradicting second filter"),
         CH("composite_filter_routes", H, "routes", t * 2, mode="E1s", functions=FM + FF[2:],
            bounds="2 filters from 4 x 4 placements each (query, member A, member B, composite) x member order x 3 partitions of the population"),
     ]
+    for q in range(4):
+        obls.append(CH("fs_optimiser_three_allow_filters_p%d" % q, H, "optimiser3_allow", t * 2, mode="E1s", functions=FO + FM[:1] + ["stix2.datastore.filesystem.FileSystemSource.query"],
+                   stubs=[FSS], env={"VERIF_PART": str(q)}, bounds="property " + ("type" if q < 2 else "id") + ", " + ("three routes" if q % 2 else "query argument") + "; every triple of allow filters (=, in, in []) on the same property (type or id) x values; all as query argument, or attached / argument / handed down"))
     if tier == "quick":
         obls.append(CH("fs_optimiser_k2", H, "optimiser2", t, mode="E1s", functions=FO + FM[:1], stubs=[FSS],
-                       bounds="every pair of type/id filters (=, !=, in) over 3 types x 4 ids; soundness and exactness vs naive and MemorySource"))
+                       bounds="every pair of type/id filters (=, !=, in, in []) over 3 types x 4 ids; soundness and exactness vs naive and MemorySource"))
     else:
-        for p in range(24):
+        for p in range(32):
             obls.append(CH("fs_optimiser_k3_p%02d" % p, H, "optimiser3", t, mode="E1s", functions=FO + FM[:1], stubs=[FSS], env={"VERIF_PART": str(p)},
                            bounds="every triple of type/id filters with first filter #%d" % p))
     return obls
